@@ -2116,8 +2116,50 @@ fn startup_udp<const N: usize>(config: &ServerConfig<SslConfig>, user_manager: &
         Ok(())
     } else {
         let context: ServerContext<N> = ServerContext::init(config, user_manager.clone())?;
-        startup_quic(context, config, |c| Ok(sssrv__PayloadCodec::from(c)))
+        srv__startup_quic(context, config, |c| Ok(sssrv__PayloadCodec::from(c)))
     }
+}
+
+//@@ octo-squirrel-server/src/server/shadowsocks.rs:44-74  fn startup  sha=f9e9296b8572f902
+fn startup(config: &ServerConfig<SslConfig>, Tracked(vlog): Tracked<&mut AssocLog>) -> anyhow::Result<()> {
+    let res = match config.cipher {
+        CipherKind::Aes128Gcm | CipherKind::Aead2022Blake3Aes128Gcm => {
+            let mut user_manager: ServerUserManager<16> = ServerUserManager::new();
+            for user in config.user.iter() {
+                user_manager.add_user(ServerUser::try_from(user).map_err(|e| verif_err())?);
+            }
+            let user_manager = Arc::new(user_manager);
+            (startup_udp::<16>(config, &user_manager, Tracked(vlog)), startup_tcp::<16>(config, &user_manager))
+        }
+        CipherKind::Aes256Gcm
+        | CipherKind::Aead2022Blake3Aes256Gcm
+        | CipherKind::ChaCha20Poly1305
+        | CipherKind::Aead2022Blake3ChaCha8Poly1305
+        | CipherKind::Aead2022Blake3ChaCha20Poly1305 => {
+            let mut user_manager: ServerUserManager<32> = ServerUserManager::new();
+            for user in config.user.iter() {
+                user_manager.add_user(ServerUser::try_from(user).map_err(|e| verif_err())?);
+            }
+            let user_manager = Arc::new(user_manager);
+            (startup_udp::<32>(config, &user_manager, Tracked(vlog)), startup_tcp::<32>(config, &user_manager))
+        }
+        CipherKind::Unknown => return Err(verif_err()),
+    };
+    match res {
+        (Ok(_), Ok(_)) => Ok(()),
+        (Ok(_), Err(e)) => return Err(verif_err()),
+        (Err(e), Ok(_)) => return Err(verif_err()),
+        (Err(e1), Err(e2)) => return Err(verif_err()),
+    }
+}
+
+//@@ octo-squirrel-server/src/server/shadowsocks.rs:76-82  fn startup_tcp  sha=b6e808d99b150591
+fn startup_tcp<const N: usize>(config: &ServerConfig<SslConfig>, user_manager: &Arc<ServerUserManager<N>>) -> anyhow::Result<()> {
+    if !config.mode.enable_tcp() {
+        return Ok(());
+    }
+    let context: ServerContext<N> = ServerContext::init(config, user_manager.clone())?;
+    srv__startup_tcp(context, config, |c| Ok(sssrv__PayloadCodec::from(c)))
 }
 
 //@@ octo-squirrel-server/src/server/shadowsocks.rs:201-296  impl UdpAssociateContext {fn relay,fn validate_packet_id}  sha=83f5dd0af9b9d8fe
